@@ -21,3 +21,12 @@ Definition corr (p : program) (ob : obs) : bool :=
 (* 4 = the case is outside the generator's domain (a harness bug, never expected) *)
 Definition judge (c : program * obs) : N :=
   if wf (fst c) then code_of (corr (fst c) (snd c)) (prop (fst c) (snd c)) else 4%N.
+
+Definition corr_class (p : program) (ob : obs) : bool :=
+  match model_run FUEL p with
+  | Ok (o, _) => class_agrees o ob
+  | _ => false
+  end.
+
+Definition judge_class (c : program * obs) : N :=
+  if wf (fst c) then code_of (corr_class (fst c) (snd c)) (prop_class (fst c) (snd c)) else 4%N.
